@@ -602,9 +602,18 @@ class SegmentationImage:
             An array mapping the original label numbers to the new label
             numbers.
         """
-        # child_labels are the deblended labels
+        # child_labels are the deblended labels; labels that were removed
+        # map to zero and labels that were merged map to the same value
+        new_map = {}
         for parent_label, child_labels in self._deblend_label_map.items():
-            self._deblend_label_map[parent_label] = relabel_map[child_labels]
+            new_labels = relabel_map[child_labels]
+            new_labels = new_labels[new_labels != 0]
+            # drop duplicates, keeping the original order
+            _, idx = np.unique(new_labels, return_index=True)
+            new_labels = new_labels[np.sort(idx)]
+            if len(new_labels) > 0:
+                new_map[parent_label] = new_labels
+        self._deblend_label_map = new_map
 
     def reassign_label(self, label, new_label, relabel=False):
         """
